@@ -350,7 +350,9 @@ def _check(prop, tier, seed, rundir, t_start):
         raise Inconclusive("reference self-check failed: " + out[-2000:])
     selfcheck_line = out.strip().splitlines()[-1] if out.strip() else ""
 
-    plan = [("dbg", tier, None), ("rel", tier, None)]
+    # random (non-exhaustive) streams are scaled per tier; exhaustive streams always run in full
+    native_scale = float(os.environ.get("VERIF_SCALE", "4.0" if tier == "quick" else "2.0"))
+    plan = [("dbg", tier, native_scale), ("rel", tier, native_scale)]
     if tier == "quick" and prop in MIRI_QUICK:
         plan.append(("miri", "miri", MIRI_QUICK[prop]))
     if tier == "thorough":
